@@ -190,8 +190,14 @@ def check_case(case):
             sb = np.asarray(out_b["scale"], float)[-1]
             sd = float(np.asarray(out_d["scale"], float)[-1])
             e = abs(np.mean(sb**2) - sd**2) / sd**2 if sd > 0 else 0.0
-            res.metric("a:mle_energy/tol", e / 1e-7)
-            if not e <= 1e-7:
+            # condition-aware like every other scale comparison: 100 x the attainable accuracy of the scale (perturbed reference),
+            # floor 1e-7; squares double the relative error. Small residuals (scales of 1e-4) are resolved to ~1e-4 only.
+            rt = _scale_tol(ref, pert)
+            if rt is None:
+                res.label("a:mle_energy:scale_illcond")
+                rt = np.inf
+            res.metric("a:mle_energy/tol", e / (2 * rt))
+            if not e <= 2 * rt:
                 res.violate("a:mle_energy", f"block-diagonal MLE scales {sb} do not split the dense residual energy {sd**2!r}")
     elif klass == "b":
         # block-diagonal TS1 == d independent scalar dense solves
